@@ -57,6 +57,7 @@ Definition class_of_res (r : res) : N :=
       if (s =? F_VNC_PUSHER)%N then K_DIED 1
       else if (s =? F_TFTP_MAP)%N then K_DIED 2
       else if (s =? F_ALLOC)%N then K_DIED 3
+      else if (s =? F_STACK)%N then K_DIED 4
       else K_GROW
   end.
 
@@ -83,19 +84,23 @@ Fixpoint tftp_thread (has : bool) (dgs : list bytes) : list mop :=
       tftp_prog k parsed has last ++ tftp_thread has' r
   end.
 
-Definition count_b {A} (f : A -> bool) (l : list A) : nat := length (filter f l).
-
-(* can the runtime's concurrent-map check fire at all?  needs two goroutines touching
-   the map, one of them writing *)
-Definition tftp_may_race (threads : list (list mop)) : bool :=
-  (2 <=? count_b has_map_op threads)%nat && (1 <=? count_b has_write threads)%nat.
-
 Definition no_rep (c : case) : bool := forallb (fun k => (k_rep k =? 0)%N) (c_conns c).
 
 (* allowed observation classes, or None where the service core is not modelled *)
+Definition ldap_nest_case (c : case) : option res :=
+  match c_conns c with
+  | [k] => match ldap_nest (stream_of k) (Z.of_N (k_rep k)) with
+           | Some (RFatal s) => Some (RFatal s)
+           | _ => None
+           end
+  | _ => None
+  end.
+
 Definition predict (c : case) : option (list N) :=
   let svc := c_svc c in
-  if negb (no_rep c) then None
+  if ((svc =? 14)%N && negb (c_udp c) && match ldap_nest_case c with Some _ => true | None => false end)
+  then Some [K_DIED 4]
+  else if negb (no_rep c) then None
   else if (svc =? 2)%N then
     if c_udp c then Some [maxN (map class_of_res (flat_map (fun k => map cs_handle (k_segs k)) (c_conns c)))]
     else Some [K_OK]
@@ -103,21 +108,15 @@ Definition predict (c : case) : option (list N) :=
     if c_udp c then None
     else Some [maxN (map (fun k => class_of_res (adb_handle (reads_of (k_segs k)))) (c_conns c))]
   else if (svc =? 23)%N then
-    if negb (c_udp c) then None
-    else let threads := map (fun k => tftp_thread false (k_segs k)) (c_conns c) in
-         if (2 <=? c_par c)%N && tftp_may_race threads then Some [K_OK; K_DIED 2] else Some [K_OK]
+    if negb (c_udp c) then None else Some [K_OK]       (* every map access is under the mutex: see Properties *)
   else if (svc =? 24)%N then
     if c_udp c then None
-    else let v := maxN (map (fun k => vnc_verdict (stream_of k)) (c_conns c)) in
-         if (v =? 2)%N then Some [K_DIED 1] else if (v =? 1)%N then Some [K_OK; K_DIED 1] else Some [K_OK]
+    else Some [maxN (map (fun k => class_of_res (vnc_handle (stream_of k))) (c_conns c))]
   else if (svc =? 21)%N then
     match c_ssh c with
     | [] => None
     | rs => if negb (c_sshchan c =? 0)%N then Some [K_OK]
-            else match ssh_requests rs with
-                 | RFatal _ => Some [K_GROW; K_DIED 7]
-                 | _ => Some [K_OK]
-                 end
+            else Some [class_of_res (ssh_requests rs)]
     end
   else if (svc =? 19)%N then
     if negb (c_udp c) then Some [K_OK]
@@ -163,8 +162,9 @@ Definition SIG_TFTP_MAP := 15%N.
 Definition SIG_REDIS_STACK := 16%N.
 Definition SIG_LDAP_STACK := 17%N.
 
+(* regression signature of the repaired loop: a dialogue with an env or exec request *)
 Definition ssh_in_class (c : case) : bool :=
-  match ssh_requests (c_ssh c) with RFatal _ => true | _ => false end.
+  existsb (fun r => ((fst r =? 1) || (fst r =? 2))%N) (c_ssh c).
 
 Definition case_sig (c : case) : N :=
   let k := obs_class c in
